@@ -1,6 +1,9 @@
 package scen
 
 import (
+	"crypto/tls"
+	"crypto/x509"
+	"encoding/base64"
 	"fmt"
 	"io"
 	"net/rpc"
@@ -38,6 +41,7 @@ type liveOpts struct {
 	preLine          func(r *scriptRunner)
 	pStdout, pStderr io.Reader // what the plugin process writes to its stdout/stderr after serving begins
 	syncOut, syncErr io.Writer // ClientConfig.SyncStdout / SyncStderr
+	autoMTLS         bool      // ClientConfig.AutoMTLS; the scripted plugin does what Serve does with PLUGIN_CLIENT_CERT (gRPC only)
 	tlsAuto          bool
 	badLines         string // not a plugin: writes this to stdout instead of serving, then lives on
 	realStdout       []byte // written to the process's real stdout right after the handshake line
@@ -59,6 +63,28 @@ func newLive(x *vs.Exec, o liveOpts) *liveClient {
 	}
 	so.plugins = ps
 	script := servePlugin(so)
+	if o.autoMTLS {
+		script = func(r *scriptRunner) {
+			clientCert := ""
+			for _, e := range r.env {
+				if strings.HasPrefix(e, "PLUGIN_CLIENT_CERT=") {
+					clientCert = strings.TrimPrefix(e, "PLUGIN_CLIENT_CERT=")
+				}
+			}
+			pool := x509.NewCertPool()
+			pool.AppendCertsFromPEM([]byte(clientCert))
+			cp, kp, err := plugin.VGenerateCert() // the plugin's one-time certificate, made the way Serve makes it
+			if err != nil {
+				r.x.Fail("ENGINE", "plugin certificate: %v", err)
+				return
+			}
+			c, _ := tls.X509KeyPair(cp, kp)
+			so2 := so
+			so2.certField = base64.RawStdEncoding.EncodeToString(c.Certificate[0])
+			so2.tls = &tls.Config{Certificates: []tls.Certificate{c}, ClientAuth: tls.RequireAndVerifyClientCert, ClientCAs: pool, RootCAs: pool, MinVersion: tls.VersionTLS12, ServerName: "localhost"}
+			servePlugin(so2)(r)
+		}
+	}
 	if o.noLine {
 		script = func(r *scriptRunner) { r.waitKilled() }
 	}
@@ -83,6 +109,7 @@ func newLive(x *vs.Exec, o liveOpts) *liveClient {
 		RunnerFunc:          lc.r.runnerFunc,
 		GRPCBrokerMultiplex: o.proto == "grpcmux",
 		Managed:             o.managed,
+		AutoMTLS:            o.autoMTLS,
 		SyncStdout:          o.syncOut,
 		SyncStderr:          o.syncErr,
 		UnixSocketConfig:    &plugin.UnixSocketConfig{TempDir: os.Getenv("TMPDIR")},
